@@ -5,7 +5,7 @@ patch="$1"; prop="$2"; tier="${3:-quick}"
 cd /verif || exit 2
 if ! git -C /repo diff --quiet HEAD; then echo "repo working tree not clean"; exit 2; fi
 git -C /repo apply "$(realpath "$patch")" || { echo "patch does not apply: $patch"; exit 2; }
-out=$(./vcheck "$prop" --tier "$tier" 2>&1); code=$?
+out=$(timeout 1500 ./vcheck "$prop" --tier "$tier" 2>&1); code=$?; pkill -9 -f "vcheck-bin --worker" 2>/dev/null
 git -C /repo reset -q --hard HEAD
 nviol=$(echo "$out" | grep -c "^VIOLATION")
 if [ $code -eq 1 ] && [ $nviol -gt 0 ]; then echo "DETECTED $(basename $patch) by $prop ($nviol violation signature(s)): $(echo "$out" | grep 'signature:' | head -2 | tr '\n' ' ')"; 
